@@ -1,8 +1,8 @@
 #!/bin/bash
-# usage: confirm_mutant.sh <Cxx> <mN>   -- confirms an agent-produced mutant in a scratch worktree of /repo HEAD
-# and files it under /verif/seeded/<Cxx>-<mN>/ (patch.diff, demo files, NOTES.md, meta.json)
+# usage: confirm_mutant.sh <Cxx> <mN> [<dest mK>]  -- confirms an agent-produced mutant (/tmp/mut/<Cxx>.out/<mN>) in a
+# scratch worktree of /repo HEAD and files it under /verif/seeded/<Cxx>-<mK>/ (patch.diff, demo files, NOTES.md, meta.json)
 set -u
-prop=$1; m=$2; src=/tmp/mut/$prop.out/$m
+prop=$1; m=$2; dest=${3:-$2}; src=/tmp/mut/$prop.out/$m
 wt=/tmp/mw.$prop.$m
 [ -f $src/patch.diff ] || { echo "no patch"; exit 9; }
 git -C /repo worktree remove --force $wt 2>/dev/null
@@ -26,9 +26,9 @@ echo "$res_tests" | grep -q " 0 failed" || ok=0
 for r in "${demo_mut[@]}"; do [ "$r" != 0 ] || ok=0; done
 for r in "${demo_clean[@]}"; do [ "$r" = 0 ] || ok=0; done
 if [ $ok = 1 ]; then
-  d=/verif/seeded/$prop-$m; rm -rf $d; mkdir -p $d; cp -r $src/. $d/
+  d=/verif/seeded/$prop-$dest; rm -rf $d; mkdir -p $d; cp -r $src/. $d/
   find $d -type f -size +300k -delete
-  python3 - "$prop" "$m" "$res_tests" "$(git -C /repo rev-parse --short HEAD)" <<'PY'
+  python3 - "$prop" "$dest" "$res_tests" "$(git -C /repo rev-parse --short HEAD)" <<'PY'
 import json,sys,os
 prop,m,tests,head=sys.argv[1:5]
 d="/verif/seeded/%s-%s"%(prop,m)
